@@ -46,7 +46,8 @@ def glue_check(o):
             o.corr_failures.append(("the real binary did not start against the fake lightningd (%s)" % st, {})); return
         reqs = glue_requests()
         for i, (name, params) in enumerate(reqs):
-            n.hook("g%d" % i, params)
+            # every third request reaches the plugin in two reads, the first ending between the two newlines of the separator
+            n.hook("g%d" % i, params, split_sep=(i % 3 == 1))
         for i, (name, params) in enumerate(reqs):
             r = n.wait_reply("g%d" % i, 15)
             seen[name] = r
@@ -76,6 +77,6 @@ def boundary_checks(o):
     wiring_check(o)
 
 def run(tier, seed):
-    extra = ("Process boundary: the real binary (fake lightningd, stdin chunked in 5-byte writes) receives %d htlc_accepted calls that cannot be decoded, carry out-of-range "
+    extra = ("Process boundary: the real binary (fake lightningd, stdin chunked in 5-byte writes, every third request split between the two newlines of its separator) receives %d htlc_accepted calls that cannot be decoded, carry out-of-range "
              "numbers, malformed metadata or are plain forwards; each must be answered exactly once with a hook result; started with MPP timeouts 1/2/3 s and payment timeouts 60/7/1 s a partial HTLC is answered after the MPP timeout. " % len(glue_requests()))
     return run_property("C06", tier, seed, gen_for("C06"), rule=BASE_RULE + extra, assumptions=COMMON_ASSUME, profiles=("dev", "release"), extra_check=boundary_checks)
